@@ -1,5 +1,5 @@
 SPEC = {
-    "lean_modules": ["AM.Props.C12"],
+    "lean_modules": ["AM.Props.C12", "AM.Props.C02M"],
     "theorems": [
         "AM.Silence.create_fresh_id", "AM.Silence.create_start_not_past",
         "AM.Silence.edit_compatible_keeps_id", "AM.Silence.edit_incompatible_expires_old_creates_new",
@@ -9,6 +9,7 @@ SPEC = {
         "AM.Silence.queryable_until_retention", "AM.Silence.gc_removes_after_retention",
         "AM.Silence.gc_never_removes_pending_or_active",
         "AM.Silence.index_inv_preserved", "AM.Silence.query_eq_filter", "AM.Silence.reload_lossless",
+        "AM.Silence.set_keeps_matchers", "AM.Silence.expire_keeps_matchers",
     ],
     "engines": [
         {"name": "sillife", "pkg": "./sillife", "search_cases": 20000},
@@ -16,7 +17,7 @@ SPEC = {
     "rule": "random lifecycles on one real silence.Silences driven through the api/v2 HTTP handlers in-process (POST /silences, DELETE and GET "
             "/silence/{id}, GET /silences via api.Handler.ServeHTTP) and through Silences.Set/Expire/GC/Query directly, under synctest virtual "
             "time on a 500 ms grid; the next instant is drawn from the boundaries (-1,0,+1 step) of stored silences' start / end / end+retention, "
-            "sometimes repeating the same instant; creates, compatible and incompatible edits (same/different matchers, same/shifted start "
+            "sometimes repeating the same instant; creates, compatible and incompatible edits (same matchers / one component of the stored matcher sets changed - operator only, value only, name only, a matcher or a set added, dropped or moved / another catalog entry; same/shifted start "
             "within and across a second, end before/at/after now), nil start/end (direct Set), unknown ids, invalid-input stream (no or empty "
             "matcher set, all matchers matching empty, bad regex, empty name, end<start, end in the past), size limit and count limit; "
             "non-trivial = hits a tagged branch (set:create/in-place/replace/invalid/notfound/limit/toobig/silently-dropped, post:400/404, "
